@@ -9,19 +9,21 @@ package slog
 
 import (
 	"cmp"
+	"context"
 	"fmt"
 	"io"
 	"iter"
+	logslog "log/slog"
 	"os"
 	"reflect"
 	"regexp"
 	"sort"
 	"strings"
 	"time"
+	"unsafe"
 
 	"github.com/hedzr/is"
 
-	istrings "github.com/hedzr/logg/slog/internal/strings"
 	"github.com/hedzr/logg/slog/internal/times"
 )
 
@@ -68,6 +70,12 @@ func verifMapOrder[K cmp.Ordered, V any](m map[K]V) iter.Seq2[K, V] {
 		}
 	}
 }
+
+// the process mode as the library determines it at start-up (same public functions of hedzr/is)
+var (
+	verifInTesting = is.InTesting()
+	verifIsDebug   = is.DebugMode() || is.DebugBuild() || is.InDebugging()
+)
 
 // ---------------------------------------------------------------- degradation
 //
@@ -295,7 +303,6 @@ func VerifResetPools(s *VerifSnap) {
 	}
 }
 
-
 func sortedKeys[K cmp.Ordered, V any](m map[K]V) []K {
 	keys := make([]K, 0, len(m))
 	for k := range m {
@@ -324,11 +331,8 @@ func VerifDumpRegistry() string {
 	return sb.String()
 }
 
-func VerifTreatedAs(l Level) (Level, bool) { t, ok := mLevelIsEnabledAs[l]; return t, ok }
-func VerifUsesErrorDevice(l Level) bool    { _, ok := mLevelUseErrorDevice[l]; return ok }
-func VerifHasColors(l Level) bool          { _, ok := mLevelColors[l]; return ok }
-func VerifInTesting() bool                 { return inTesting }
-func VerifIsDebug() bool                   { return isDebug || isDebugging }
+func VerifInTesting() bool                 { return verifInTesting }
+func VerifIsDebug() bool                   { return verifIsDebug }
 func VerifHomeCwd() (string, string)       { return homeDir, currDir }
 func VerifKnownPathMap() map[string]string { return cpMap(knownPathMap) }
 func VerifKnownPathRegexps() (ret [][2]string) {
@@ -336,23 +340,6 @@ func VerifKnownPathRegexps() (ret [][2]string) {
 		ret = append(ret, [2]string{r.expr.String(), r.repl})
 	}
 	return
-}
-func VerifSetKnownPathRegexps(list [][2]string) {
-	knownPathRegexpMap = nil
-	for _, r := range list {
-		knownPathRegexpMap = append(knownPathRegexpMap, regRepl{regexp.MustCompile(r[0]), r[1]})
-	}
-}
-func VerifSetHomeCwd(home, cwd string) {
-	delete(knownPathMap, homeDir)
-	delete(knownPathMap, currDir)
-	homeDir, currDir = home, cwd
-	if home != "" {
-		knownPathMap[home] = "~"
-	}
-	if cwd != "" {
-		knownPathMap[cwd] = "."
-	}
 }
 func VerifLevelOutputWidth() int    { return levelOutputWidth }
 func VerifMinimalMessageWidth() int { return minimalMessageWidth }
@@ -362,13 +349,26 @@ func VerifSetWidths(low, mmw int)   { levelOutputWidth, minimalMessageWidth = lo
 
 // VerifEntryOf unwraps a Logger to its *Entry.
 func VerifEntryOf(l any) *Entry {
-	switch z := l.(type) {
-	case *Entry:
-		return z
-	case *logimp:
-		return z.Entry
-	case *handler4LogSlog:
-		return VerifEntryOf(z.Logger)
+	if e, ok := l.(*Entry); ok {
+		return e
+	}
+	// a wrapper of the package around a logger: a struct that embeds *Entry or a Logger
+	rv := reflect.ValueOf(l)
+	if rv.Kind() == reflect.Ptr && !rv.IsNil() && rv.Elem().Kind() == reflect.Struct {
+		st := rv.Elem()
+		for i := 0; i < st.NumField(); i++ {
+			if !st.Type().Field(i).Anonymous {
+				continue
+			}
+			switch v := verifFieldValue(st.Field(i)).(type) {
+			case *Entry:
+				return v
+			case Logger:
+				if v != nil {
+					return VerifEntryOf(v)
+				}
+			}
+		}
 	}
 	return nil
 }
@@ -394,11 +394,19 @@ type VerifEntryInfo struct {
 }
 
 func verifUnwrap(w LogWriter) io.Writer {
-	switch z := w.(type) {
-	case *logwr:
-		return z.Writer
-	case *filewr:
-		return z.File
+	// a wrapper type of the library around the caller's io.Writer / *os.File: a struct that embeds it
+	rv := reflect.ValueOf(w)
+	if rv.Kind() == reflect.Ptr && !rv.IsNil() && rv.Elem().Kind() == reflect.Struct && rv.Type().Elem().PkgPath() == reflect.TypeOf(Entry{}).PkgPath() {
+		st := rv.Elem()
+		for i := 0; i < st.NumField(); i++ {
+			f := st.Field(i)
+			if !st.Type().Field(i).Anonymous {
+				continue
+			}
+			if x, ok := verifFieldValue(f).(io.Writer); ok && x != nil {
+				return x
+			}
+		}
 	}
 	return w
 }
@@ -410,34 +418,125 @@ func verifUnwrapList(l LWs) (ret []io.Writer) {
 	return
 }
 
-func VerifInfo(e *Entry) VerifEntryInfo {
-	inf := VerifEntryInfo{
-		Ptr: e, Name: e.name, Owner: e.owner, Items: e.items,
-		UseJSON: e.useJSON, UseColor: e.useColor, TimeLayout: e.timeLayout, ModeUTC: e.modeUTC,
-		Level: e.level, Attrs: e.attrs, ValueStringer: e.valueStringer,
-		HasHandlerOpt: e.handlerOpt != nil, ExtraFrames: e.extraFrames, ContextKeys: e.contextKeys,
+// verifFieldValue reads a struct field (also an unexported one) of an addressable struct value.
+func verifFieldValue(f reflect.Value) any {
+	if f.CanInterface() {
+		return f.Interface()
 	}
-	if e.writer != nil {
-		inf.HasWriter = true
-		inf.Normal, inf.Error, inf.Leveled = VerifDualWriterLists(e.writer)
+	if !f.CanAddr() {
+		return nil
+	}
+	return reflect.NewAt(f.Type(), unsafe.Pointer(f.UnsafeAddr())).Elem().Interface()
+}
+
+// VerifInfo reads the private state of a logger. Nothing here names a field: public getters are used
+// where the API has them (Name, Parent, JSONMode, ColorMode, Level, Skip), the other fields are found
+// by their TYPE (the only map[string]*Entry is the table of children, the only Attrs the logger's own
+// attributes, ...). Where two fields have the same type (the time layout next to the name; the UTC mode
+// next to the skip count) the one whose value differs from the getter's answer is taken - if both hold
+// the same value the choice does not matter.
+func VerifInfo(e *Entry) VerifEntryInfo {
+	inf := VerifEntryInfo{Ptr: e, Name: e.Name(), Owner: e.Parent(), UseJSON: e.JSONMode(), UseColor: e.ColorMode(), Level: e.Level(), ExtraFrames: e.Skip()}
+	st := reflect.ValueOf(e).Elem()
+	var strs []string
+	var ints []int
+	for i := 0; i < st.NumField(); i++ {
+		f := st.Field(i)
+		switch v := verifFieldValue(f).(type) {
+		case map[string]*Entry:
+			inf.Items = v
+		case Attrs:
+			inf.Attrs = v
+		case ValueStringer:
+			inf.ValueStringer = v
+		case logslogHandler:
+			inf.HasHandlerOpt = v != nil
+		case []any:
+			inf.ContextKeys = v
+		case string:
+			strs = append(strs, v)
+		case int:
+			ints = append(ints, v)
+		case Level:
+			// (e.Level() may be computed; the stored one is what the model compares)
+			inf.Level = v
+		default:
+			// the writer set: a pointer to a struct of the package that has LWs fields
+			if f.Kind() == reflect.Ptr && !f.IsNil() && f.Type().Elem().Kind() == reflect.Struct {
+				if n, er, lv, ok := verifWriterSet(reflect.NewAt(f.Type(), unsafe.Pointer(f.UnsafeAddr())).Elem().Elem()); ok {
+					inf.HasWriter = true
+					inf.Normal, inf.Error, inf.Leveled = n, er, lv
+				}
+			}
+		}
+	}
+	for _, v := range strs {
+		if v != inf.Name {
+			inf.TimeLayout = v
+		}
+	}
+	if len(strs) >= 2 && inf.TimeLayout == "" && inf.Name != "" {
+		same := 0
+		for _, v := range strs {
+			if v == inf.Name {
+				same++
+			}
+		}
+		if same >= 2 {
+			inf.TimeLayout = inf.Name
+		}
+	}
+	for _, v := range ints {
+		if v != inf.ExtraFrames {
+			inf.ModeUTC = v
+		}
+	}
+	if len(ints) >= 2 && inf.ModeUTC == 0 {
+		same := 0
+		for _, v := range ints {
+			if v == inf.ExtraFrames {
+				same++
+			}
+		}
+		if same >= 2 {
+			inf.ModeUTC = inf.ExtraFrames
+		}
 	}
 	return inf
 }
 
-func VerifDualWriterLists(d *dualWriter) (normal, errw []io.Writer, leveled map[Level][]io.Writer) {
-	normal = verifUnwrapList(d.Normal)
-	errw = verifUnwrapList(d.Error)
-	if d.leveled != nil {
-		leveled = map[Level][]io.Writer{}
-		for k, v := range d.leveled {
-			leveled[k] = verifUnwrapList(v)
+type logslogHandler = interface {
+	Enabled(context.Context, logslog.Level) bool
+	Handle(context.Context, logslog.Record) error
+	WithAttrs(attrs []logslog.Attr) logslog.Handler
+	WithGroup(name string) logslog.Handler
+}
+
+// verifWriterSet reads a writer set (struct with two LWs fields named Normal and Error - exported names -
+// and a map from Level to LWs).
+func verifWriterSet(d reflect.Value) (normal, errw []io.Writer, leveled map[Level][]io.Writer, ok bool) {
+	if d.Kind() != reflect.Struct {
+		return
+	}
+	fn, fe := d.FieldByName("Normal"), d.FieldByName("Error")
+	if !fn.IsValid() || !fe.IsValid() {
+		return
+	}
+	n, ok1 := verifFieldValue(fn).(LWs)
+	e, ok2 := verifFieldValue(fe).(LWs)
+	if !ok1 || !ok2 {
+		return
+	}
+	normal, errw, ok = verifUnwrapList(n), verifUnwrapList(e), true
+	for i := 0; i < d.NumField(); i++ {
+		if m, isMap := verifFieldValue(d.Field(i)).(map[Level]LWs); isMap && m != nil {
+			leveled = map[Level][]io.Writer{}
+			for k, v := range m {
+				leveled[k] = verifUnwrapList(v)
+			}
 		}
 	}
 	return
-}
-
-func VerifDefaultWriterLists() (normal, errw []io.Writer, leveled map[Level][]io.Writer) {
-	return VerifDualWriterLists(defaultWriter)
 }
 
 func VerifStdFiles() (*os.File, *os.File) { return os.Stdout, os.Stderr }
@@ -457,7 +556,6 @@ func VerifSmartDurationStringEx(d time.Duration, frac bool) string {
 	return times.SmartDurationStringEx(d, frac)
 }
 func VerifParseDuration(s string) (time.Duration, error) { return times.ParseDuration(s) }
-func VerifDotPrefix(leaf string, prefix ...string) string { return istrings.DotPrefix(leaf, prefix...) }
 
 func VerifCheckedFuncName(name string) string { return checkedfuncname(name) }
 
